@@ -287,6 +287,31 @@ impl Si {
     }
 }
 
+/// STREAMINFO body (34 bytes) of a file that starts with `fLaC` + STREAMINFO, and its parsed form
+pub fn si_from_file(file: &[u8]) -> Option<(Vec<u8>, Si)> {
+    if file.len() < 42 || &file[..4] != b"fLaC" || file[4] & 0x7F != 0 { return None; }
+    let body = file[8..42].to_vec();
+    let s = super::refdec::parse_si(&body).ok()?;
+    Some((body, Si { min_bs: s.min_bs as u16, max_bs: s.max_bs as u16, min_fs: s.min_fs, max_fs: s.max_fs, rate: s.rate, ch: s.ch as u8, bps: s.bps, total: s.total, md5: s.md5 }))
+}
+
+/// "struct" cases (src = encoder) for the frames of an encoder-produced file: the tie that
+/// lets the Coq theorems about well-formed frame trees apply to the encoder's actual output
+/// (the model must find each frame well-formed, RFC-valid and canonically serialised).
+pub fn encoder_struct_cases(file: &[u8], max_frames: usize, max_frame_bytes: usize) -> Vec<String> {
+    let mut out = vec![];
+    let Some((body, si)) = si_from_file(file) else { return out };
+    let Some(bounds) = frame_boundaries(file) else { return out };
+    let streaminfo = si.to_streaminfo();
+    for w in bounds.windows(2).take(max_frames) {
+        if w[1] - w[0] > max_frame_bytes { continue; }
+        let fb = &file[w[0]..w[1]];
+        let o = struct_obs(fb, Some(&streaminfo));
+        out.push(struct_case(fb, Some(&body), &o, &[("src", esc("encoder"))]));
+    }
+    out
+}
+
 /// MD5 of the little-endian sign-extended bytes (ceil(bps/8) bytes per sample) of interleaved PCM
 pub fn pcm_md5(pcm: &[i32], bps: u32) -> [u8; 16] {
     let bytes = super::space::pcm_to_bytes(pcm, bps, false);
